@@ -29,7 +29,7 @@ ASSUMPTIONS = [
     "observation (not a violation of the text): the expansion ramp multiplies only the relocated series, i.e. it has no effect without relocation and "
     "none before harvest duration + rotation delay",
 ]
-TRUSTED = []
+TRUSTED = ["the Greenhouses instance of compute_parameters_first_round is captured by subclassing it inside src.optimizer.parameters for the call"]
 
 CORPUS = [
     # D1 (fixed b6083af): a small country under relocation was truncated to 0 every month
